@@ -67,12 +67,35 @@ def defaults(ctx):
     ctx.check("default-temp-is-20", Eq(utils.trace_res(w1_mm=w1, w2_mm=w2, l_mm=l, t_mm=t, temp=20.0, tcr=w2), r))
 
 
+def repeat(ctx, t=0.030517578125):
+    """The formulas are functions of their arguments: a second and third call in the same process (same concrete layer
+    thickness - a hashable float, which is what a memo would key on - and other symbolic arguments) still obey the
+    closed form, in both call orders across the two functions.  The thicknesses are 1000 * 2^-15 and 1000 * 2^-14 mm so
+    that the concrete float division t_mm / 1e3 inside plane_res is exact (floats are modelled as reals)."""
+    from sysloss.utils import trace_res, plane_res
+
+    a, b = _inputs(ctx), {k: ctx.real(k + "'") for k in ("w1", "w2", "l", "rho", "temp", "tcr")}
+    for k in ("w1", "w2", "l", "rho"):
+        ctx.assume(b[k] > 0)
+    ctx.cover("evaluated")
+    tref = lambda n: n["rho"] * (n["l"] / 1000.0) / (((n["w1"] + n["w2"]) / 2 / 1000.0) * (t / 1000.0)) * (1 + n["tcr"] * (n["temp"] - 20.0))
+    pref = lambda n: (n["rho"] / (t / 1000.0)) * (n["l"] / n["w1"]) * (1 + n["tcr"] * (n["temp"] - 20.0))
+    tr = lambda n: trace_res(w1_mm=n["w1"], w2_mm=n["w2"], l_mm=n["l"], t_mm=t, rho=n["rho"], temp=n["temp"], tcr=n["tcr"])
+    pl = lambda n: plane_res(w=n["w1"], l=n["l"], t_mm=t, rho=n["rho"], temp=n["temp"], tcr=n["tcr"])
+    ctx.check("first-call", Eq(tr(a), tref(a)))
+    ctx.check("second-call-other-arguments", Eq(tr(b), tref(b)))
+    ctx.check("plane-after-trace", Eq(pl(b), pref(b)))
+    ctx.check("plane-after-plane", Eq(pl(a), pref(a)))
+    ctx.check("trace-after-plane", Eq(tr(a), tref(a)))
+
+
 META = {
     "explanation": "Symbolic execution of the real sysloss.utils.trace_res / plane_res on z3 real proxies; each "
                    "documented algebraic law is one solver query (exact nonlinear real arithmetic) whose negation must be unsat "
                    "for all positive dimensions/resistivities and all temperatures/coefficients.",
     "functions": ["sysloss.utils.trace_res", "sysloss.utils.plane_res"],
-    "bounds": "none on values (mathematical reals, positive dimensions); loop-free code, 1 path per harness",
+    "bounds": "none on values (mathematical reals, positive dimensions); loop-free code, 1 path per harness; call sequences of <= 5 calls "
+              "at two concrete layer thicknesses (c20:repeat)",
     "outside": "binary64 rounding/overflow",
     "assumptions": ["Python floats modelled as mathematical reals", "w1,w2,l,t,rho,k > 0; temp, tcr arbitrary"],
 }
@@ -80,4 +103,6 @@ META = {
 
 def instances(tier):
     return [Instance("C20", "c20:trace", cover=["evaluated"]), Instance("C20", "c20:plane", cover=["evaluated"]),
-            Instance("C20", "c20:defaults", cover=["evaluated"])], META
+            Instance("C20", "c20:defaults", cover=["evaluated"]),
+            Instance("C20", "c20:repeat", dict(t=0.030517578125), cover=["evaluated"]),
+            Instance("C20", "c20:repeat", dict(t=0.06103515625), cover=["evaluated"])], META
